@@ -295,10 +295,21 @@ fn raw_fields(msg: &[u8], v5: bool) -> Vec<(u16, usize, usize)> {
     out
 }
 
-fn load_keyset(file: &[u8]) -> Arc<KeySet> {
+/// the server's key set as the daemon obtains it across a restart: the key file is loaded, STORED again with the
+/// real `KeySetProvider::store`, and loaded with the configured `history` — which may be smaller than, equal to
+/// or larger than the number of stored keys (history lowered / raised across the restart), including 0
+fn load_keyset_hist(file: &[u8], history: usize) -> Arc<KeySet> {
     let mut rd = std::io::Cursor::new(file.to_vec());
-    let (p, _) = KeySetProvider::load(&mut rd, 8).expect("keyset file");
+    let (p0, _) = KeySetProvider::load(&mut rd, 8).expect("keyset file");
+    let mut stored: Vec<u8> = vec![];
+    p0.store(&mut stored).expect("store");
+    let mut rd = std::io::Cursor::new(stored);
+    let (p, _) = KeySetProvider::load(&mut rd, history).expect("stored keyset file");
     p.get()
+}
+
+fn load_keyset(file: &[u8]) -> Arc<KeySet> {
+    load_keyset_hist(file, 8)
 }
 
 fn bloom_from_seed(seed: u64, n: u64) -> BloomFilter {
@@ -707,7 +718,8 @@ fn exec_case(ops: &[String], run: &mut Run) {
                 w.allowf = IpFilter::new(&w.cfg.allowlist.filter);
                 if let Some(k) = kv(r, "keys") {
                     w.keyfile = unhex(k).expect("keys hex");
-                    w.keyset = load_keyset(&w.keyfile);
+                    let hist: usize = kv(r, "hist").and_then(|x| x.parse().ok()).unwrap_or(8);
+                    w.keyset = load_keyset_hist(&w.keyfile, hist);
                 }
                 w.build();
                 run.end_op("ok");
@@ -1300,7 +1312,9 @@ fn gen_cfg(rng: &mut Rng) -> (String, Vec<u8>, u32, u32, usize) {
         _ => (0, 0),
     };
     // key set file: time(8) id_offset(4) primary(4) len(4) keys(64 each)
-    let nkeys = rng.usize(1, 4);
+    let nkeys = rng.usize(1, 6);
+    // history the daemon is configured with when it loads the stored key set: below / at / above the key count
+    let hist = *rng.pick(&[0usize, 1, 2, 3, 4, 5, 8, 8]);
     let primary = if rng.chance(7, 10) { nkeys - 1 } else { rng.usize(0, nkeys - 1) };
     // id offsets at / next to the u32 wrap: with two or three keys the ids of the newer keys wrap to 0, 1
     let id_offset: u32 = match rng.below(6) {
@@ -1320,8 +1334,8 @@ fn gen_cfg(rng: &mut Rng) -> (String, Vec<u8>, u32, u32, usize) {
         file.extend_from_slice(&rng.bytes(64));
     }
     let line = format!(
-        "cfg dact={} dlist={} aact={} alist={} rnts={} vers={} cache={} cutoff={} keys={}",
-        dact, dlist, aact, alist, rnts, vers, cache, cutoff, hex(&file)
+        "cfg dact={} dlist={} aact={} alist={} rnts={} vers={} cache={} cutoff={} hist={} keys={}",
+        dact, dlist, aact, alist, rnts, vers, cache, cutoff, hist, hex(&file)
     );
     (line, file, id_offset, primary as u32, nkeys)
 }
